@@ -63,13 +63,19 @@ func selText(e ast.Expr) string {
 		if p := selText(x.X); p != "" {
 			return p + "." + x.Sel.Name
 		}
+	case *ast.CallExpr: // a getter without arguments, `entry.GetHeight()`, may be declared as a free variable
+		if len(x.Args) == 0 {
+			if p := selText(x.Fun); p != "" {
+				return p + "()"
+			}
+		}
 	}
 	return ""
 }
 
 var typeMap = map[string]string{
 	"uint": "UInt64", "uint64": "UInt64", "uint32": "UInt32", "uint8": "UInt8", "byte": "UInt8", "bool": "Bool",
-	"int": "Int64", "int64": "Int64", "time.Duration": "Int64",
+	"int": "Int64", "int64": "Int64", "time.Duration": "Int64", "types.Height": "UInt64", "Height": "UInt64",
 	"VotingPower": "UInt64", "types.VotingPower": "UInt64", "SchemaVersion": "UInt64", "DataAvailabilityMode": "UInt32",
 }
 
@@ -113,7 +119,7 @@ func (t *tr) free(e ast.Expr) (string, string, bool) {
 		return "", "", false
 	}
 	lt := leanType(gt)
-	name := strings.ReplaceAll(txt, ".", "_")
+	name := strings.ReplaceAll(strings.ReplaceAll(txt, "()", ""), ".", "_")
 	if leanReserved[name] {
 		name += "_v"
 	}
@@ -137,6 +143,10 @@ func typeName(e ast.Expr) string {
 		return typeName(t.X) + "." + t.Sel.Name
 	case *ast.StarExpr:
 		return "*" + typeName(t.X)
+	case *ast.IndexExpr: // generic receiver T[A]
+		return typeName(t.X)
+	case *ast.IndexListExpr: // generic receiver T[A, B]
+		return typeName(t.X)
 	}
 	fail("type expression %T", e)
 	return ""
@@ -211,6 +221,9 @@ func (t *tr) expr(e ast.Expr, want string) (string, string) {
 		}
 		fail("unary %s", x.Op)
 	case *ast.CallExpr:
+		if n, lt, ok := t.free(x); ok {
+			return n, lt
+		}
 		// conversion?
 		if id, ok := x.Fun.(*ast.Ident); ok {
 			if lt, ok := typeMap[id.Name]; ok && len(x.Args) == 1 {
